@@ -27,6 +27,8 @@ type replayDoc struct {
 	Clients   int    `json:"clients,omitempty"`
 	Seconds   int    `json:"seconds,omitempty"`
 	FreeRun   int    `json:"free_running_clients,omitempty"`
+	FlakyOne  int    `json:"faulty_answers_5xx_one_in,omitempty"`
+	Swap      bool   `json:"recovery_through_recovered_backend,omitempty"`
 	Original  *Case  `json:"original_case_before_minimisation,omitempty"`
 	Violation string `json:"violation"`
 	Config    string `json:"helios_yaml"`
@@ -91,7 +93,12 @@ func minimise(t *testing.T, c Case, v string) (Case, Result, bool) {
 		return false
 	}
 	for i := 0; i < len(c.Steps) && len(c.Steps) > 1; {
-		cand := Case{Cfg: c.Cfg, Steps: append(append([]Step(nil), c.Steps[:i]...), c.Steps[i+1:]...)}
+		cand := c
+		cand.Steps = append(append([]Step(nil), c.Steps[:i]...), c.Steps[i+1:]...)
+		if cand.faults() == 0 {
+			i++
+			continue // a sequence needs a fault
+		}
 		if try(cand) {
 			c = cand
 		} else {
@@ -99,22 +106,36 @@ func minimise(t *testing.T, c Case, v string) (Case, Result, bool) {
 		}
 	}
 	for i := range c.Steps {
+		if !c.Steps[i].isFault() {
+			continue
+		}
+		if c.Steps[i].Good > 0 {
+			cand := c
+			cand.Steps = append([]Step(nil), c.Steps...)
+			cand.Steps[i].Good = 0
+			if try(cand) {
+				c = cand
+			}
+		}
 		if c.Steps[i].Concurrent > 0 {
-			cand := Case{Cfg: c.Cfg, Steps: append([]Step(nil), c.Steps...)}
-			cand.Steps[i].Concurrent = 0
+			cand := c
+			cand.Steps = append([]Step(nil), c.Steps...)
+			cand.Steps[i].Concurrent, cand.Steps[i].Good = 0, 0
 			if try(cand) {
 				c = cand
 			}
 		}
 		if c.Steps[i].Framing != "" {
-			cand := Case{Cfg: c.Cfg, Steps: append([]Step(nil), c.Steps...)}
+			cand := c
+			cand.Steps = append([]Step(nil), c.Steps...)
 			cand.Steps[i].Framing = ""
 			if try(cand) {
 				c = cand
 			}
 		}
 		if kindOf(c.Steps[i].Kind) != "get" {
-			cand := Case{Cfg: c.Cfg, Steps: append([]Step(nil), c.Steps...)}
+			cand := c
+			cand.Steps = append([]Step(nil), c.Steps...)
 			cand.Steps[i].Kind = ""
 			if try(cand) {
 				c = cand
@@ -122,8 +143,15 @@ func minimise(t *testing.T, c Case, v string) (Case, Result, bool) {
 		}
 	}
 	if c.Cfg.Handler != 0 || c.Cfg.BackendRead != 0 { // back to the former fixed timeouts (handler 2, backend_read 1)
-		cand := Case{Cfg: c.Cfg, Steps: c.Steps}
+		cand := c
 		cand.Cfg.Handler, cand.Cfg.BackendRead = 0, 0
+		if try(cand) {
+			c = cand
+		}
+	}
+	if c.Swap { // does the ordinary recovery phase show it too?
+		cand := c
+		cand.Swap = false
 		if try(cand) {
 			c = cand
 		}
@@ -156,9 +184,21 @@ func judge(t *testing.T, name string, sub *lab.SubCheck, cases []Case, res []Res
 				labels = append(labels, k)
 			}
 		}
-		labels = append(labels, "timeouts:"+c.Cfg.relation())
+		labels = append(labels, "timeouts:"+c.Cfg.relation(), "health:"+c.Cfg.healthClass())
+		if c.Swap {
+			labels = append(labels, "roles-swapped-for-recovery")
+		}
+		if c.goodBurstAfterFault() {
+			labels = append(labels, "good-burst-right-after-fault")
+			if c.Cfg.Passive {
+				labels = append(labels, "good-burst-right-after-fault+passive-on")
+			}
+		}
 		conc := false
 		for _, s := range c.Steps {
+			if s.Fault == GoodBurst {
+				continue
+			}
 			if s.Fault == Pause {
 				labels = append(labels, "pause>1s")
 				if s.PauseMs > 1000*activeEvery {
@@ -175,6 +215,12 @@ func judge(t *testing.T, name string, sub *lab.SubCheck, cases []Case, res []Res
 			}
 			if s.Both {
 				labels = append(labels, "both-backends-faulty")
+			}
+			if s.Good > 0 && s.Concurrent > 0 {
+				labels = append(labels, "well-behaved-requests-in-faulted-burst")
+			}
+			if s.HealthToo {
+				labels = append(labels, "fault-also-on-health-endpoint", "fault-also-on-health-endpoint:"+s.Fault)
 			}
 			if c.Cfg.Breaker > 0 && s.Both && !abortFault(s.Fault) && s.requests() < c.Cfg.Breaker {
 				labels = append(labels, "faults-below-breaker-threshold")
@@ -194,8 +240,11 @@ func judge(t *testing.T, name string, sub *lab.SubCheck, cases []Case, res []Res
 			if c.Cfg.BreakerMaxRequestsUnset {
 				labels = append(labels, "max-requests-unset")
 			}
-		case "window-expiry":
+		case "window-expiry", "flaky-load":
 			labels = append(labels, fmt.Sprintf("clients=%d", c.Clients), fmt.Sprintf("passive-threshold=%d", c.Cfg.PassiveThreshold))
+			if c.Kind == "flaky-load" {
+				labels = append(labels, fmt.Sprintf("5xx-one-in=%d", c.FlakyOneIn), fmt.Sprintf("faulty-entries=%d", max(1, c.Cfg.FaultyEntries)))
+			}
 			if r.Expiries >= 20 {
 				labels = append(labels, "expiries>=20")
 			}
@@ -251,11 +300,11 @@ func judge(t *testing.T, name string, sub *lab.SubCheck, cases []Case, res []Res
 		}
 	}
 	c, r := cases[failed], res[failed]
-	doc := replayDoc{Kind: c.Kind, Cfg: c.Cfg, Opening: c.Opening, Steps: c.Steps, Clients: c.Clients, Seconds: c.Seconds, FreeRun: c.FreeRunning, Violation: r.Violation, Config: r.YAML, HeliosLog: tail(r.Log, 20000)}
+	doc := replayDoc{Kind: c.Kind, Cfg: c.Cfg, Opening: c.Opening, Steps: c.Steps, Clients: c.Clients, Seconds: c.Seconds, FreeRun: c.FreeRunning, FlakyOne: c.FlakyOneIn, Swap: c.Swap, Violation: r.Violation, Config: r.YAML, HeliosLog: tail(r.Log, 20000)}
 	if !replaying && len(c.Steps) > 0 && c.Kind == "" {
 		if mc, mr, changed := minimise(t, c, r.Violation); changed {
 			orig := c
-			doc = replayDoc{Cfg: mc.Cfg, Steps: mc.Steps, Original: &orig, Violation: mr.Violation, Config: mr.YAML, HeliosLog: tail(mr.Log, 20000)}
+			doc = replayDoc{Cfg: mc.Cfg, Steps: mc.Steps, Swap: mc.Swap, Original: &orig, Violation: mr.Violation, Config: mr.YAML, HeliosLog: tail(mr.Log, 20000)}
 			c, r = mc, mr
 		}
 	}
